@@ -81,6 +81,7 @@ type lexer struct {
 	pos   int
 	width int
 	inVar bool // lexing the segments of a variable: no nested variable
+	last  bool // a "**" has been emitted: it must be the last segment
 }
 
 func (l *lexer) tokens() tokens { return l.toks[:l.len] }
@@ -252,6 +253,7 @@ func lexSegment(l *lexer) error {
 	case r == '*':
 		rn := l.next()
 		if rn == '*' {
+			l.last = true
 			return l.emit(tokenStarStar)
 		}
 		l.backup()
@@ -275,6 +277,9 @@ func lexSegments(l *lexer) error {
 		if r := l.next(); r != '/' {
 			l.backup() // unknown
 			return nil
+		}
+		if l.last {
+			return l.errUnexpected()
 		}
 		if err := l.emit(tokenSlash); err != nil {
 			return err
